@@ -18,7 +18,8 @@ RULE = (
     "block/loop/if, br/br_if/br_table, calls, call_indirect, all MVP numeric and memory instructions, mutable and "
     "immutable globals, memory + data, table + elem, exports, start) encoded by the reference encoder vf/wasmref.py; "
     "per case: (a) Module(ref).to_bytes()==ref, (b) Module(Module(ref).to_string()).to_bytes()==Module(ref).to_bytes(), "
-    "(c) Module(wat).to_bytes() for a flat or folded rendering (drawn integer spelling, inline exports) is accepted by V8 "
+    "(c) Module(wat).to_bytes() for a flat or folded rendering (drawn integer spelling, inline exports, and numeric / "
+    "unique / deliberately shadowing label names and $x names colliding across the func, global and local spaces) is accepted by V8 "
     "and gives the same results/traps/globals/memory as ref on the generated invocations, (d) w(r(w(r(b))))==w(r(b)) for "
     "a non-canonical encoding b (padded LEB128s, ungrouped locals). non-trivial = some function nests block/loop/if "
     "inside another and branches, and the module has >=2 section kinds beyond type/function/code; distinct = hash of the case"
@@ -48,6 +49,7 @@ REGISTER = True
 KF = {
     "C21-KF1": {"no_features": {"snan32_consts"}},
     "C21-KF2": {"no_features": {"nan_payload_consts"}},
+    "C21-KF3": {"no_features": set(), "wat": {"cond_names": False}},
 }
 
 
@@ -57,7 +59,7 @@ def flags_for(open_ids):
     for kid, e in KF.items():
         if kid in open_ids:
             nf |= e["no_features"]
-            used.append(kid)
+            used.append(kid)  # C21-KF3 is excluded in the rendering (case["wat"]["cond_names"]), not in the generator
     return G.Flags(no_features=nf), used
 
 
@@ -158,7 +160,8 @@ def check_case(case):
                        exp=b2[_diffpos(b2, b3) - 4 : _diffpos(b2, b3) + 4].hex(), got=b3[_diffpos(b2, b3) - 4 : _diffpos(b2, b3) + 4].hex())  # fmt: skip
     # (c) independent WAT rendering -> ppci -> V8
     v = case.get("wat", {})
-    wat = R.to_wat(desc, folded=bool(v.get("folded")), style=int(v.get("style", 0)), inline_exports=bool(v.get("inline")))
+    wat = R.to_wat(desc, folded=bool(v.get("folded")), style=int(v.get("style", 0)), inline_exports=bool(v.get("inline")),
+                   names=int(v.get("names", 0)), cond_names=bool(v.get("cond_names", True)))
     try:
         bw = Module(wat).to_bytes()
     except Exception as e:
@@ -221,12 +224,96 @@ def _nan_consts(desc):
     return [(t, v) for t, v in out if N.is_nan_bits(t, v)]
 
 
+def _kf3_model(desc, mode):
+    """The module ppci's parser produces under C21-KF3: in a folded `(if $l cond (then ..))` the if's label is
+    pushed BEFORE the condition is parsed, so a NAMED label reference inside the condition is resolved against
+    a stack that already holds the if's label.  Returns a description with the depths rewritten accordingly
+    (names are assigned exactly as wasmref._wat_folded does), or None if nothing changes."""
+    import copy
+
+    out = copy.deepcopy(desc)
+    changed = [False]
+
+    def resolve(names, pstack, depth):
+        tok = names.label(depth)
+        if not tok.startswith("$"):
+            return depth
+        return list(reversed(pstack)).index(tok)
+
+    def count_opens(node):
+        op = node[0]
+        if op in ("block", "loop"):
+            return 1 + sum(count_opens(n) for n in node[2])
+        if op == "if":
+            return 1 + count_opens(node[2]) + sum(count_opens(n) for n in node[3]) + sum(count_opens(n) for n in (node[4] or []))
+        return sum(count_opens(n) for n in node[2])
+
+    def walk(node, names, pstack):
+        op = node[0]
+        if op in ("block", "loop"):
+            name = names.open()
+            pstack.append(name)
+            for n in node[2]:
+                walk(n, names, pstack)
+            pstack.pop()
+            names.close()
+        elif op == "if":
+            # the name the if will get once its condition has been rendered
+            probe = R._Names(mode)
+            probe.count = names.count + count_opens(node[2])
+            probe.labels = list(names.labels)
+            if_name = probe.open()
+            pstack.append(if_name)  # ppci: label visible while the condition is parsed
+            walk(node[2], names, pstack)
+            pstack.pop()
+            name = names.open()
+            pstack.append(name)
+            for n in node[3]:
+                walk(n, names, pstack)
+            for n in node[4] or []:
+                walk(n, names, pstack)
+            pstack.pop()
+            names.close()
+        else:
+            for c in node[2]:
+                walk(c, names, pstack)
+            if op in ("br", "br_if"):
+                d = resolve(names, pstack, node[1][0])
+                if d != node[1][0]:
+                    node[1][0] = d
+                    changed[0] = True
+            elif op == "br_table":
+                ls = [resolve(names, pstack, x) for x in node[1][0]]
+                dflt = resolve(names, pstack, node[1][1])
+                if ls != node[1][0] or dflt != node[1][1]:
+                    node[1][0], node[1][1] = ls, dflt
+                    changed[0] = True
+
+    for f in out["funcs"]:
+        names = R._Names(mode, len(out["types"][f["type"]][0]))
+        for n in f["body"]:
+            walk(n, names, [])
+    return out if changed[0] else None
+
+
 def classify(case, msg):
     h = parse_message(msg)
     if h is None:
         return None
     desc = case["desc"]
     step = h.get("step")
+    v = case.get("wat", {})
+    if step == "c" and v.get("folded") and int(v.get("names", 0)) and v.get("cond_names", True) and "exc" not in h:
+        model = _kf3_model(desc, int(v["names"]))
+        if model is not None:
+            try:
+                from ppci.wasm import Module
+
+                wat = R.to_wat(desc, folded=True, style=int(v.get("style", 0)), inline_exports=bool(v.get("inline")), names=int(v["names"]))
+                if Module(wat).to_bytes() == R.encode(model):
+                    return "C21-KF3"
+            except Exception:
+                pass
     snan32 = [v for v in _f32_consts(desc) if (v & 0x7F800000) == 0x7F800000 and v & 0x7FFFFF and not v & 0x400000]
     if step == "a" and snan32 and "exc" not in h:
         # model: the only change is the quiet bit of a signalling f32 NaN: ..00 80 7f -> ..00 c0 7f
@@ -275,15 +362,17 @@ def _worker(arg):
         if nontrivial and len(stats.samples) < 1:
             sample = {"wat": R.to_wat(desc)[:1500], "calls": case["calls"], "wat_variant": case["wat"], "noncanon": case["noncanon"],
                       "ref_binary_len": len(R.encode(desc))}  # fmt: skip
-        classes = ["feat:" + f for f in sorted(feats)] + ["wat:" + ("folded" if case["wat"]["folded"] else "flat")]
+        classes = ["feat:" + f for f in sorted(feats)] + ["wat:" + ("folded" if case["wat"]["folded"] else "flat"),
+                                                        "wat-names:" + ("numeric", "unique", "shadowing")[case["wat"]["names"]]]
         stats.case(core.jhash(case), nontrivial, sample, classes=classes)
         return msg
 
     base = G.cases(flags, max_funcs=sizes["max_funcs"], fuel=sizes["fuel"], depth=sizes["depth"])
     strat = st.builds(
-        lambda c, folded, style, inline, pad, split: dict(c, wat={"folded": folded, "style": style, "inline": inline},
-                                                         noncanon={"leb_pad": pad, "split_locals": split}),
-        base, st.booleans(), st.integers(0, 2), st.booleans(), st.integers(0, 2), st.booleans(),
+        lambda c, folded, style, inline, names, pad, split: dict(c, wat={"folded": folded, "style": style, "inline": inline, "names": names,
+                                                                         "cond_names": "C21-KF3" not in open_ids},
+                                                                noncanon={"leb_pad": pad, "split_locals": split}),
+        base, st.booleans(), st.integers(0, 2), st.booleans(), st.sampled_from([2, 0, 1, 2]), st.integers(0, 2), st.booleans(),
     )  # fmt: skip
     fails = hyp_search(strat, prop, n, seed, stats, classify=lambda c, m: (classify(c, m) if classify(c, m) in open_ids else None),
                        budget_s=sizes["budget_s"])  # fmt: skip
